@@ -59,7 +59,15 @@ impl<'a> PrettyPrinter<'a> {
     ) -> ArenaDoc<'a> {
         match destructuring_item {
             DestructuringItem::Spread(s) => self.convert_spread(ctx, s),
+            // Typst parses an expression pattern atomically: no line break may be put before
+            // its dots (`(a.b.c,) = x`, `(k: a.b.c) = x`).
+            DestructuringItem::Named(n) if matches!(n.pattern(), Pattern::Normal(_)) => {
+                self.convert_named(ctx.suppress_breaks(), n)
+            }
             DestructuringItem::Named(n) => self.convert_named(ctx, n),
+            DestructuringItem::Pattern(Pattern::Normal(n)) => {
+                self.convert_expr(ctx.suppress_breaks(), n)
+            }
             DestructuringItem::Pattern(p) => self.convert_pattern(ctx, p),
         }
     }
